@@ -256,6 +256,58 @@ def rule_refix(chk, prefix="C04.refix"):
 
 
 
+def rule_every_declaration_emitted(chk):
+    """generate_root_definitions / generate_root_definition read on a module with two functions of one leaf name in two
+    namespaces (A::f, B::f), each declared first and defined later, and a prototype repeated: every root declaration of
+    the module comes out, in order, in its own namespace - a prototype that is left out makes the emitted text call a
+    function before anything declares it, and the front end refuses the compiler's own output."""
+    import interp as I
+    f = chk.facts
+    fn = f.fn("generate_root_definitions", "rssl_hlsl")
+    if not fn:
+        return
+    opt = lambda v: I.Enum("Option", "None") if v is None else I.Enum("Option", "Some", {"0": v})
+    ns = lambda n_: I.Enum("NamespaceId", None, {"0": n_})
+    fid = lambda n_: I.Enum("FunctionId", None, {"0": n_})
+
+    def deref(v):
+        return v.get() if isinstance(v, I.Ref) else v
+    NS_OF = {1: 1, 2: 2, 3: None}
+    ext = {"generate_function": lambda a: I.Enum("Result", "Ok", {"0": [I.Enum("FunctionDefinition", None, {
+               "name": I.Enum("Located", None, {"node": "f", "location": I.Opaque("location")}), "tag": "%s of function %d" % ("prototype" if a[1] is True else "definition", deref(a[0]).fields["0"]),
+               "body": opt(None) if a[1] is True else opt([])})]}),
+           "FunctionRegistry::get_function_name_definition": lambda a: I.Enum("FunctionNameDefinition", None, {"name": I.Enum("Located", None, {"node": "f", "location": I.Opaque("location")}), "namespace": opt(None if NS_OF[deref(a[1]).fields["0"]] is None else ns(NS_OF[deref(a[1]).fields["0"]]))}),
+           "NamespaceRegistry::get_namespace_name": lambda a: {1: "A", 2: "B"}[deref(a[1]).fields["0"]], "NamespaceRegistry::get_namespace_parent": lambda a: opt(None)}
+    decls = [("FunctionDeclaration", 1), ("FunctionDeclaration", 2), ("FunctionDeclaration", 3), ("FunctionDeclaration", 1), ("Function", 1), ("Function", 2), ("Function", 3)]
+    module = I.Enum("Module", None, {"namespace_registry": I.Opaque("namespace registry"), "function_registry": I.Opaque("function registry")})
+    ctx = I.Enum("GenerateContext", None, {"module": module})
+    out = []
+    try:
+        I.Interp(f, max_depth=8, extern=ext).apply(fn, [module, [I.Enum("RootDefinition", k, {"0": fid(i)}) for k, i in decls], out, ctx])
+    except I.Unknown as e:
+        if "panicking" in str(e):
+            chk.ob("C04.roots/every-declaration", False, "generate_root_definitions aborts on the model module (%s)" % str(e)[:60], where(fn))
+        else:
+            chk.unreadable("C04.roots/every-declaration", "generate_root_definitions on a model module", str(e)[:100], where(fn))
+        return
+    got = []
+    for d in out:
+        chain = []
+        cur = [d]
+        while len(cur) == 1 and isinstance(cur[0], I.Enum) and cur[0].variant == "Namespace":
+            nm = cur[0].fields.get("0")
+            chain.append(nm.fields["node"] if isinstance(nm, I.Enum) else nm)
+            cur = cur[0].fields.get("1")
+        for x in cur:
+            inner = x.fields.get("0") if isinstance(x, I.Enum) and x.variant == "Function" else x
+            got.append(("::".join(chain) or "(root)", inner.fields.get("tag") if isinstance(inner, I.Enum) else repr(inner)))
+    want = [({1: "A", 2: "B", 3: "(root)"}[i], "%s of function %d" % ("prototype" if k == "FunctionDeclaration" else "definition", i)) for k, i in decls]
+    ok = got == want
+    missing = [w for w in want if w not in got]
+    chk.ob("C04.roots/every-declaration", ok, "%d root declarations in, %d definitions out, each in its namespace" % (len(want), len(got)) if ok else
+           "of the module's declarations %s the output holds %s%s" % (want, got, ": %s is not emitted - a call before the definition then names an undeclared function" % (missing[0],) if missing else ""), where(fn), sample={"declarations": len(want)})
+
+
 def rule_forward_declaration(chk):
     """generate_function_inner read twice on a model function (with and without a return semantic, attributes, two
     parameters): as a prototype and as a definition. The front end takes a function's signature - return type, return
@@ -328,6 +380,7 @@ def run(chk):
     rule_refix(chk)
     rule_decl_refix(chk)
     rule_forward_declaration(chk)
+    rule_every_declaration_emitted(chk)
     import c01
     c01.rule_intrinsic(chk, "C04")      # an intrinsic is exported under a name the front end declares with the same parameter lists
     import c09
